@@ -122,15 +122,6 @@ Qed.
 
 (* ---------------- instance 2: the oracles of C15's correspondence run (elimination without pivoting on the Gram
    matrix, no zero tests): invariant when no pivot is zero ---------------- *)
-Fixpoint elim_regular (fuel : nat) (rows : list (list F)) : Prop :=
-  match fuel, rows with
-  | S f, piv :: rest =>
-      nthF piv 0 <> 0 /\ elim_regular f (map (fun r => tl (row_sub (nthF r 0 / nthF piv 0) piv r)) rest)
-  | _, _ => True
-  end.
-Definition ls_rows (y : list F) (p : nat) : list (list F) := map (fun i => mk p (cov_gram y p i) ++ [cov_rhs y p i]) (seq 0 p).
-Definition ls_exact_regular (y : list F) (p : nat) : Prop := elim_regular p (ls_rows y p).
-
 Lemma row_sub_scale t c (piv row : list F) :
   row_sub c (vscale t piv) (vscale t row) = vscale t (row_sub c piv row).
 Proof.
